@@ -207,6 +207,9 @@ class Driver(SystemWideDevice):
         if not isinstance(timed_enable_ms, int):
             raise AssertionError("Wrong type {}".format(timed_enable_ms))
 
+        if timed_enable_ms < 0:
+            raise AssertionError("Timed_enable_ms {} is not valid.".format(timed_enable_ms))
+
         if self.config['max_hold_duration'] and timed_enable_ms > self.config['max_hold_duration']:
             raise DriverLimitsError("Driver {} may not be held with timed_enable_ms {} because max_hold_duration is {}".
                                     format(self.name, timed_enable_ms, self.config['max_hold_duration']))
